@@ -5,6 +5,7 @@ import (
 	"context"
 	"errors"
 	"fmt"
+	"os"
 	"sort"
 	"time"
 
@@ -786,4 +787,316 @@ func (r *Run) finalChecksManaged() {
 		}
 		txn.Discard()
 	}
+}
+
+// ---------- value-log GC (C15) and held items ----------
+
+func init() {
+	extraOps["gc"] = opGC
+	extraOps["get_hold"] = opGetHold
+	extraOps["iter_hold"] = opIterHold
+	extraOps["read_held"] = opReadHeld
+	extraOps["drop_prefix"] = opDropPrefix
+	extraOps["drop_all"] = opDropAll
+	extraOps["flatten"] = opFlatten
+}
+
+func opGC(r *Run, cl *clientState, idx int, op *Op) {
+	if r.c.Cfg.InMemory {
+		return
+	}
+	ratio := op.F
+	if ratio <= 0 || ratio >= 1 {
+		ratio = 0.5
+	}
+	r.setPhase("gc")
+	err := r.db.RunValueLogGC(ratio)
+	r.setPhase("")
+	r.logf("c%d RunValueLogGC(%.2f) -> %v", cl.id, ratio, err)
+	switch {
+	case err == nil:
+		r.probe("gc_rewrote_file")
+	case errors.Is(err, badger.ErrNoRewrite), errors.Is(err, badger.ErrRejected):
+		r.probe("gc_no_rewrite")
+	default:
+		r.violate([]string{"C15", "C38"}, "gc-error", "c%d RunValueLogGC(%.2f) failed: %v", cl.id, ratio, err)
+	}
+}
+
+type heldItem struct {
+	item *badger.Item
+	it   *badger.Iterator
+	key  string
+	ver  uint64
+	val  []byte
+}
+
+func opGetHold(r *Run, cl *clientState, idx int, op *Op) {
+	ts := cl.slots[op.S]
+	if ts == nil || ts.held != nil {
+		return
+	}
+	key := r.key(op.Key)
+	if _, own := ts.pending[string(key)]; own {
+		return
+	}
+	item, err := ts.txn.Get(key)
+	if err != nil {
+		return
+	}
+	if ts.rw {
+		ts.reads[string(key)] = true
+	}
+	r.mu.Lock()
+	want := r.model.Read(string(key), ts.readTs, now())
+	var val []byte
+	if want != nil {
+		val = want.Val
+	}
+	r.mu.Unlock()
+	if want == nil || want.Ts != item.Version() {
+		return // the ordinary get oracle covers mismatches; only hold consistent items
+	}
+	ts.held = &heldItem{item: item, key: string(key), ver: item.Version(), val: val}
+	r.logf("c%d holds item %q@%d from Get", cl.id, key, item.Version())
+}
+
+func opIterHold(r *Run, cl *clientState, idx int, op *Op) {
+	ts := cl.slots[op.S]
+	if ts == nil || ts.held != nil {
+		return
+	}
+	opt := badger.DefaultIteratorOptions
+	opt.PrefetchValues = false
+	it := ts.txn.NewIterator(opt)
+	it.Seek(r.key(op.Key))
+	if ts.rw {
+		ts.reads[string(r.key(op.Key))] = true
+	}
+	if !it.Valid() {
+		it.Close()
+		return
+	}
+	item := it.Item()
+	k := string(item.KeyCopy(nil))
+	if ts.rw {
+		ts.reads[k] = true
+	}
+	if _, own := ts.pending[k]; own {
+		it.Close()
+		return
+	}
+	r.mu.Lock()
+	want := r.model.Read(k, ts.readTs, now())
+	var val []byte
+	if want != nil {
+		val = want.Val
+	}
+	r.mu.Unlock()
+	if want == nil || want.Ts != item.Version() {
+		it.Close()
+		return
+	}
+	ts.held = &heldItem{item: item, it: it, key: k, ver: item.Version(), val: val}
+	r.logf("c%d holds item %q@%d from an open iterator", cl.id, k, item.Version())
+}
+
+func opReadHeld(r *Run, cl *clientState, idx int, op *Op) {
+	ts := cl.slots[op.S]
+	if ts == nil || ts.held == nil {
+		return
+	}
+	h := ts.held
+	r.stats.Checks++
+	got, err := h.item.ValueCopy(nil)
+	src := "Get"
+	if h.it != nil {
+		src = "an open iterator"
+	}
+	r.logf("c%d reads held item %q@%d -> %s err=%v", cl.id, h.key, h.ver, short(got), err)
+	if r.dropTouches(h.key) {
+		return
+	}
+	r.probe("held_item_read")
+	if err != nil {
+		r.violate([]string{"C15"}, "held-item-unreadable", "c%d: the value of item %q@%d obtained from %s in a still-open transaction can no longer be read: %v", cl.id, h.key, h.ver, src, firstLine(err.Error()))
+		return
+	}
+	if !bytes.Equal(got, h.val) {
+		r.violate([]string{"C15", "C06"}, "held-item-changed", "c%d: item %q@%d obtained from %s now yields %s, written was %s", cl.id, h.key, h.ver, src, short(got), short(h.val))
+	}
+}
+
+func (ts *txnState) releaseHeld() {
+	if ts.held != nil && ts.held.it != nil {
+		ts.held.it.Close()
+	}
+	ts.held = nil
+}
+
+// ---------- DropPrefix / DropAll (C29) ----------
+
+func (r *Run) dropTouches(key string) bool {
+	r.mu.Lock()
+	defer r.mu.Unlock()
+	for _, d := range r.drops {
+		if d.all {
+			return true
+		}
+		for _, p := range d.prefixes {
+			if bytes.HasPrefix([]byte(key), p) {
+				return true
+			}
+		}
+	}
+	return false
+}
+
+type dropRec struct {
+	prefixes  [][]byte
+	all       bool
+	startStep uint64
+	endStep   uint64 // 0 while in progress
+}
+
+func (r *Run) applyDropToModel(d *dropRec) {
+	// every version of a matching key that is in the model now was written
+	// before the drop finished: it is gone
+	for k, vs := range r.model.Keys {
+		match := d.all
+		for _, p := range d.prefixes {
+			if bytes.HasPrefix([]byte(k), p) {
+				match = true
+			}
+		}
+		if !match {
+			continue
+		}
+		// A commit whose timestamp is allocated but which has not been handed to
+		// the write path yet (it is parked before sendToWriteCh) will be applied
+		// after the drop (or be rejected): it is not part of what was dropped.
+		var keep []Version
+		for i := range vs {
+			c := r.model.Commits[vs[i].Commit]
+			if r.inFlight[c.Ts] && !c.Failed {
+				keep = append(keep, vs[i])
+				continue
+			}
+			r.model.Dropped = append(r.model.Dropped, droppedVersion{Key: k, V: vs[i]})
+		}
+		if len(keep) > 0 {
+			r.model.Keys[k] = keep
+		} else {
+			delete(r.model.Keys, k)
+		}
+	}
+}
+
+func opDropPrefix(r *Run, cl *clientState, idx int, op *Op) {
+	var ps [][]byte
+	for _, so := range op.Sub {
+		k := r.key(so.Key)
+		n := so.N
+		if n <= 0 || n > len(k) {
+			n = len(k)
+		}
+		ps = append(ps, append([]byte{}, k[:n]...))
+	}
+	if len(ps) == 0 {
+		return
+	}
+	r.doDrop(cl, &dropRec{prefixes: ps}, func() error { return r.db.DropPrefix(ps...) })
+}
+
+func opDropAll(r *Run, cl *clientState, idx int, op *Op) {
+	r.doDrop(cl, &dropRec{all: true}, func() error { return r.db.DropAll() })
+}
+
+func (r *Run) doDrop(cl *clientState, d *dropRec, f func() error) {
+	r.mu.Lock()
+	d.startStep = r.e.Steps
+	r.drops = append(r.drops, d)
+	r.dropsActive++
+	r.mu.Unlock()
+	r.setPhase("drop")
+	err := f()
+	r.setPhase("")
+	r.mu.Lock()
+	r.dropsActive--
+	d.endStep = r.e.Steps
+	if err == nil {
+		r.applyDropToModel(d)
+	}
+	r.mu.Unlock()
+	r.logf("c%d drop %q all=%v -> %v", cl.id, d.prefixes, d.all, err)
+	if errors.Is(err, badger.ErrBlockedWrites) {
+		r.probe("drop_rejected_concurrent_drop")
+		return
+	}
+	if err != nil {
+		r.violate([]string{"C29", "C38"}, "drop-error", "c%d drop failed: %v", cl.id, err)
+		return
+	}
+	r.probe("drops_done")
+	r.stats.Checks++
+	// right after the drop: nothing under the prefixes is visible to a new transaction
+	txn := r.db.NewTransaction(false)
+	defer txn.Discard()
+	opt := badger.DefaultIteratorOptions
+	opt.PrefetchValues = false
+	it := txn.NewIterator(opt)
+	defer it.Close()
+	r.mu.Lock()
+	m := r.model
+	r.mu.Unlock()
+	for it.Rewind(); it.Valid(); it.Next() {
+		k := it.Item().KeyCopy(nil)
+		ver := it.Item().Version()
+		match := d.all
+		for _, p := range d.prefixes {
+			if bytes.HasPrefix(k, p) {
+				match = true
+			}
+		}
+		if !match {
+			continue
+		}
+		// visible again only if written after the drop finished (model has it)
+		r.mu.Lock()
+		var ok bool
+		for _, v := range m.Keys[string(k)] {
+			if v.Ts == ver {
+				ok = true
+			}
+		}
+		r.mu.Unlock()
+		if !ok && os.Getenv("VERIF_DEBUG_DROP") != "" {
+			for _, p := range d.prefixes {
+				o2 := badger.DefaultIteratorOptions
+				o2.Prefix = p
+				o2.PrefetchValues = false
+				it2 := txn.NewIterator(o2)
+				it2.Rewind()
+				fmt.Fprintf(os.Stderr, "DEBUG prefix %q: ValidForPrefix=%v\n", p, it2.ValidForPrefix(p))
+				it2.Close()
+			}
+			for _, t := range r.db.Tables() {
+				fmt.Fprintf(os.Stderr, "DEBUG table %d L%d [%q .. %q] keys=%d\n", t.ID, t.Level, t.Left, t.Right, t.KeyCount)
+			}
+		}
+		if !ok {
+			r.violate([]string{"C29"}, "dropped-key-visible", "c%d: after the drop of %q (all=%v) returned, key %q@%d is still visible", cl.id, d.prefixes, d.all, k, ver)
+			return
+		}
+	}
+}
+
+func opFlatten(r *Run, cl *clientState, idx int, op *Op) {
+	w := op.N
+	if w <= 0 {
+		w = 2
+	}
+	err := r.db.Flatten(w)
+	r.logf("c%d Flatten(%d) -> %v", cl.id, w, err)
+	r.probe("flatten_calls")
 }
